@@ -3,6 +3,7 @@ package sync
 import (
 	"context"
 	"log/slog"
+	"math"
 	"time"
 
 	"github.com/prometheus/client_golang/prometheus"
@@ -51,13 +52,16 @@ func Run(log *slog.Logger, cfg Config,
 	clk timebase.SystemClock, adj adjustments.Adjustment,
 	refClks, peerClks []client.ReferenceClock) {
 	ctx := context.Background()
-	if cfg.ReferenceClockImpact <= 1.0 {
+	// The conditions are written so that they also refuse a NaN, with which
+	// every comparison is false, and an infinite factor: either would switch
+	// off the clamping below.
+	if !(cfg.ReferenceClockImpact > 1.0) || math.IsInf(cfg.ReferenceClockImpact, 0) {
 		panic("invalid local reference clock impact factor")
 	}
-	if cfg.PeerClockImpact <= 1.0 {
+	if !(cfg.PeerClockImpact > 1.0) || math.IsInf(cfg.PeerClockImpact, 0) {
 		panic("invalid peer clock impact factor")
 	}
-	if cfg.PeerClockImpact-1.0 <= cfg.ReferenceClockImpact {
+	if !(cfg.PeerClockImpact-1.0 > cfg.ReferenceClockImpact) {
 		panic("invalid peer clock impact factor")
 	}
 	if cfg.SyncInterval <= 0 {
